@@ -4,7 +4,7 @@
    _getcacheinode with entrycache / invalid_paths, the VFS operations; the
    reference: the same members extracted to a real tree, resolved by the OS
    rule) and Model/ZipChain.v (handler choice).  `repaired` is the code with the
-   fixes ca35267 (symlink resolution) and 7f81718 (exact VFS type); `pinned` /
+   fixes ca35267 (symlink resolution), 7f81718 (exact VFS type) and 91cede6 (selectors outside the archive); `pinned` /
    `pinned_tests` is the code as found, kept for the _refuted witnesses. *)
 From Coq Require Import String.
 From PG Require Import Lib.Str Lib.ZipPath Model.Zip Model.ZipChain
@@ -113,6 +113,20 @@ Print Assumptions C16_link_dirname_encoding_refuted.
 Theorem C16_link_to_root_refuted : pinned_loses ms_root (lit "d/up"%string).
 Proof. exact C16Facts.link_to_root_refuted. Qed.
 Print Assumptions C16_link_to_root_refuted.
+
+(* ---- a selector that is neither the archive nor below it is answered by the file system the
+   archive lives in (`chain` = that file system's own answer to the same call) ---- *)
+Theorem C16_outside_delegates :
+  forall ms t c zname op sel chain,
+    inarchive zname sel = false -> vfs_op repaired ms t c zname op sel chain = (chain, c).
+Proof. exact C16Facts.outside_delegates. Qed.
+Print Assumptions C16_outside_delegates.
+Theorem C16_outside_cut_refuted :
+  exists ms t c, populate pinned ms = Ok (t, c) /\
+    inarchive (lit "/T.zip"%string) (lit "URL:ab"%string) = false /\
+    fst (vfs_op pinned ms t c (lit "/T.zip"%string) VStat (lit "URL:ab"%string) RExc) = RStatDir.
+Proof. exact C16Facts.outside_cut_refuted. Qed.
+Print Assumptions C16_outside_cut_refuted.
 
 (* ---- non-vacuity: a well-formed archive with an explicit directory, files, a link to the
    root, a chain through it, an absolute link, a cycle, a climber and a dangling link ---- *)
